@@ -20,6 +20,33 @@ pub enum Case {
     Shape,
     /// integrate_* on the monomial x^k against the exact moment
     EndToEnd { family: usize, k: usize },
+    /// the rules as the public integrator consumes them: a never-converging instrumented integrand records the
+    /// abscissae of every evaluation - the rule at position n must be asked for exactly the n nodes of the table row
+    ConsumedNodes { family: usize },
+    /// the weight the integrator applies to every evaluation of the rule at position `row + 1` (>= 4), read out by an
+    /// integrand that is 1 at one evaluation and 0 elsewhere: must be the table weight of that node, bit for bit
+    ConsumedWeights { family: usize, row: usize },
+}
+
+fn call_integrator(f: Family, g: &mut dyn FnMut(f64) -> f64, tol: f64) -> Result<Result<f64, String>, Caught> {
+    guard(|| match f {
+        Family::Legendre => bi::integrate_gaussian::<f64, _>(-1.0, 1.0, |x| g(x), 4.0 * tol),
+        Family::Hermite => bi::integrate_hermite::<f64, _>(|x| g(x), tol),
+        Family::Laguerre => bi::integrate_laguerre::<f64, _>(|x| g(x), tol),
+        Family::Chebyshev1 => bi::integrate_chebyshev::<f64, _>(|x| g(x), tol),
+        Family::Chebyshev2 => bi::integrate_chebyshev_second::<f64, _>(|x| g(x), tol),
+    })
+}
+
+/// rule index (0-based) of evaluation number `i` when rule k is asked for k + 1 values
+fn rule_of_call(i: usize) -> usize {
+    let mut k = 0;
+    let mut start = 0;
+    while start + k + 1 <= i {
+        start += k + 1;
+        k += 1;
+    }
+    k
 }
 
 pub fn table(f: Family) -> &'static [&'static [(f64, f64)]] {
@@ -192,6 +219,97 @@ pub fn run_case(case: &Case) -> Outcome {
             }
             o.pass()
         }
+        Case::ConsumedNodes { family } => {
+            let f = FAMILIES[*family % 5];
+            o.label(format!("consumed-nodes-{}", f.name()));
+            o.nontrivial = true;
+            let rows = table(f);
+            let total: usize = (1..=rows.len()).sum();
+            // alternating constants per rule: consecutive areas differ by about the zeroth moment, never within tol
+            let mut xs: Vec<f64> = vec![];
+            let mut g = |x: f64| {
+                let k = rule_of_call(xs.len());
+                xs.push(x);
+                if k % 2 == 0 {
+                    1.0
+                } else {
+                    0.0
+                }
+            };
+            let res = call_integrator(f, &mut g, 1e-3);
+            match res {
+                Ok(Err(_)) => {}
+                Ok(Ok(v)) => return o.fail(format!("integrate_{}: an integrand whose rule values alternate returned Ok({v:e})", f.name())),
+                Err(c) => return o.fail(format!("{c:?}")),
+            }
+            if xs.len() != total {
+                return o.fail(format!("integrate_{} evaluated the integrand {} times while walking through all {} rules; rules of 1, 2, ..., {} points need {total}", f.name(), xs.len(), rows.len(), rows.len()));
+            }
+            let mut at = 0;
+            for (k, row) in rows.iter().enumerate() {
+                let mut got: Vec<f64> = xs[at..at + k + 1].to_vec();
+                at += k + 1;
+                got.sort_by(|a, b| a.partial_cmp(b).unwrap());
+                let want: Vec<f64> = expand(f, row).iter().map(|p| p.0).collect();
+                if got.len() != want.len() || got.iter().zip(want.iter()).any(|(a, b)| a.to_bits() != b.to_bits() && !(*a == 0.0 && *b == 0.0)) {
+                    return o.fail(format!("integrate_{}: the rule at position {} was evaluated at {got:?}, the table row has the nodes {want:?}", f.name(), k + 1));
+                }
+            }
+            o.pass()
+        }
+        Case::ConsumedWeights { family, row } => {
+            let f = FAMILIES[*family % 5];
+            o.label(format!("consumed-weights-{}", f.name()));
+            o.nontrivial = true;
+            let rows = table(f);
+            let n = *row + 1;
+            if n < 4 || n > rows.len() {
+                return o.discard("weights can be read out through the integrator from the fourth rule on");
+            }
+            let first: usize = (1..n).sum();
+            let expanded = expand(f, rows[n - 1]);
+            for j in 0..n {
+                // rules 1..n-3: alternating 0 / 1e3 (the last of them 1e3) - never two agreeing in a row;
+                // rules n-2 and n-1: zero; rule n: one at evaluation j, zero elsewhere; tolerance 10 > every weight
+                let mut count = 0usize;
+                let mut xj = f64::NAN;
+                let mut g = |x: f64| {
+                    let i = count;
+                    count += 1;
+                    let k = rule_of_call(i) + 1;
+                    if k + 2 < n {
+                        if (n - 3 - k) % 2 == 0 {
+                            1e3
+                        } else {
+                            0.0
+                        }
+                    } else if k < n {
+                        0.0
+                    } else if k == n && i == first + j {
+                        xj = x;
+                        1.0
+                    } else {
+                        0.0
+                    }
+                };
+                let res = call_integrator(f, &mut g, 10.0);
+                let v = match res {
+                    Ok(Ok(v)) => v,
+                    Ok(Err(e)) => return o.fail(format!("integrate_{}: weight probe of rule {n}, evaluation {j}, returned Err({e})", f.name())),
+                    Err(c) => return o.fail(format!("{c:?}")),
+                };
+                if count != first + n {
+                    return o.fail(format!("integrate_{}: weight probe of rule {n} used {count} evaluations, expected {}", f.name(), first + n));
+                }
+                let Some(&(_, w)) = expanded.iter().find(|p| p.0.to_bits() == xj.to_bits() || (p.0 == 0.0 && xj == 0.0)) else {
+                    return o.fail(format!("integrate_{}: rule {n} evaluated the integrand at {xj:e}, which is not a node of the table row", f.name()));
+                };
+                if v.to_bits() != w.to_bits() {
+                    return o.fail(format!("integrate_{}: rule {n} applies the weight {v:e} at the node {xj:e}; the table has {w:e}", f.name()));
+                }
+            }
+            o.pass()
+        }
         Case::EndToEnd { family, k } => {
             let f = FAMILIES[*family % 5];
             o.label(format!("end-to-end-{}", f.name()));
@@ -258,9 +376,16 @@ pub fn run(opts: &Opts) -> i32 {
             spec.enumerated.push(Case::EndToEnd { family: fi, k });
         }
     }
+    // the rules as consumed by the public integrators
+    for (fi, f) in FAMILIES.iter().enumerate() {
+        spec.enumerated.push(Case::ConsumedNodes { family: fi });
+        for row in 3..table(*f).len() {
+            spec.enumerated.push(Case::ConsumedWeights { family: fi, row });
+        }
+    }
     spec.cases = opts.tier.pick(5_000, 100_000);
-    spec.exhaustive = Some("every row of the five Gaussian tables (structure, all monomials of degree <= 2n-1, independent Golub-Welsch/closed-form rule) and every tanh-sinh pair".into());
-    spec.rule = "enumerated: every row n of WEIGHTS_LEGENDRE/HERMITE/LAGUERRE/CHEBYSHEV/CHEBYSHEV_SECOND of the working tree, expanded as the integrators consume it (x == 0.0 once, otherwise +-x): exactly n points, distinct (>1e-12), inside the domain, positive weights, every monomial of degree <= 2n-1 against the exact moment within 1e-9 sum w|p|, node/weight agreement with an independently computed rule (Golub-Welsch eigenproblem, closed-form Chebyshev) within 1e-10; random polynomials of degree <= 2n-1 in the orthonormal basis (8/64 per row enumerated + generated seeds); every tanh-sinh (w,x) against the double-exponential formula (rel 1e-12 / abs 4 eps); end-to-end integrate_* on monomials. Non-trivial = rows with n >= 2, all tanh-sinh pairs. Distinct = distinct case JSON.".into();
+    spec.exhaustive = Some("every row of the five Gaussian tables (structure, all monomials of degree <= 2n-1, independent Golub-Welsch/closed-form rule) and every tanh-sinh pair; the nodes of every rule and the weights of every rule from the fourth on as applied by the public integrators".into());
+    spec.rule = "enumerated: every row n of WEIGHTS_LEGENDRE/HERMITE/LAGUERRE/CHEBYSHEV/CHEBYSHEV_SECOND of the working tree, expanded as the integrators consume it (x == 0.0 once, otherwise +-x): exactly n points, distinct (>1e-12), inside the domain, positive weights, every monomial of degree <= 2n-1 against the exact moment within 1e-9 sum w|p|, node/weight agreement with an independently computed rule (Golub-Welsch eigenproblem, closed-form Chebyshev) within 1e-10; random polynomials of degree <= 2n-1 in the orthonormal basis (8/64 per row enumerated + generated seeds); every tanh-sinh (w,x) against the double-exponential formula (rel 1e-12 / abs 4 eps); end-to-end integrate_* on monomials. As consumed by the public integrators: a never-converging instrumented integrand records every abscissa (rule n must be asked for exactly the n table nodes, n(n+1)/2 evaluations in total) and an integrand that is 1 at a single evaluation reads out the weight applied there for every rule from the fourth on (bit-equal to the table). Non-trivial = rows with n >= 2, all tanh-sinh pairs. Distinct = distinct case JSON.".into();
     spec.assumptions = vec!["exact moments from Gamma-function closed forms".into(), "nalgebra SymmetricEigen accurate to ~1e-13 for the Jacobi matrices up to n = 27".into()];
     spec.max_discard_frac = 0.0;
     run_spec(spec, opts)
